@@ -199,6 +199,39 @@ def section_fingerprint(serif, out):
     out.append("")
 
 
+def section_fp_seeds(serif, out):
+    """the accumulator a container-valued element (set / tuple / list) starts its rolling hash from, per kind and length,
+    read off the behaviour through the public API: with `k` a string, fp(Vector([k, c])) = ((hash(k) % P) * B + h(c)) % P, and
+    for a container c of n zeros h(c) = seed(kind, n) * B**n % P (a zero adds nothing).  Kinds: 1 set, 2 tuple, 3 list."""
+    import warnings
+    from serif import Vector
+    with warnings.catch_warnings():
+        warnings.simplefilter("ignore")
+        P = int(Vector([-1]).fingerprint()) + 2
+        B = int(Vector([1, 0]).fingerprint())
+        hk = hash("k") % P
+
+        def h_of(c):
+            return (int(Vector(["k", c]).fingerprint()) - hk * B) % P
+        rows = []
+        for n in range(0, 7):
+            zeros = [0] * n
+            inv = pow(B, -n, P)
+            for kind, c in ((2, tuple(zeros)), (3, list(zeros))):
+                rows.append((kind, n, (h_of(c) * inv) % P))
+        # a set holds distinct items: {0, 1, ..., n-1} in sorted order, the item hashes removed one by one
+        for n in range(0, 7):
+            h = h_of(set(range(n)))
+            # h = (...((seed * B + 0) * B + 1) * B + ... + (n-1)) % P  =>  peel the items off from the right
+            for x in reversed(range(n)):
+                h = ((h - x) * pow(B, -1, P)) % P
+            rows.append((1, n, h))
+    out.append("/-- starting accumulator of the rolling hash of a container-valued element: ((kind, length), seed) with kind 1 = set,\n"
+               "    2 = tuple, 3 = list; read off the behaviour of `fingerprint()` -/")
+    out.append("def fpSeeds : List ((Nat × Nat) × Int) := [" + ", ".join(f"(({k}, {n}), {sd})" for k, n, sd in sorted(rows)) + "]")
+    out.append("")
+
+
 def _find_func(tree, cls, name):
     for node in ast.walk(tree):
         if isinstance(node, ast.ClassDef) and node.name == cls:
